@@ -53,8 +53,25 @@ def r1(ctx):
         clo = re.search(r'closure:(.*)$', S(b.call_args(s)[1]))
         cb = [c for c in P.bodies.values() if clo and c.id.split('::', 1)[1] == clo.group(1).rstrip(')')]
         vals = [v for c in cb for _, v in ret_assigns(c)]
-        ctx.check('handle_connection|%s|compares-authentication' % site_desc(b, s), len(vals) == 1 and re.match(r'^\(v == .*authentication.*\)$|^String::eq\(v, .*authentication', vals[0]) is not None
-                  or (len(vals) == 1 and 'authentication' in vals[0] and '==' in vals[0]), 'token comparison is %s' % vals, s.where(), sample=vals)
+        # the predicate is exactly one equality between the configured token (the closure's argument) and the request's `authentication`
+        # field: anything else (a hand-rolled comparison, a prefix test, a comparison of lengths) is not accepted as "the tokens are equal"
+        ok = False
+        if len(cb) == 1 and len(vals) == 1:
+            c = cb[0]
+            arg = c.locals[2].get('name') if len(c.locals) > 2 else None
+            rs = [st for st, _ in ret_assigns(c)]
+            t = unlet(expand(c.rvalue_term(rs[0].data['rv']) if rs[0].kind == 'assign' else c.call_term(rs[0].data)))
+            if t is not None and t[0] == 'binop' and t[1] == 'Eq':
+                l, r = tstr(t[2]), tstr(t[3])
+            elif t is not None and t[0] == 'call' and re.search(r'(PartialEq|String|str)::eq$', short_name(t[1])) and len(t[2]) == 2:
+                l, r = tstr(t[2][0]), tstr(t[2][1])
+            else:
+                l = r = ''
+            strip = lambda x: re.sub(r'^(?:\w+::(?:deref|as_ref|as_str|borrow)\()+(.*?)\)+$', r'\1', x)
+            sides = sorted([strip(l), strip(r)], key=lambda x: x.endswith('.authentication'))
+            ok = bool(arg) and sides[0] == arg and re.search(r'Request::parse\(.* as (FixedKey|Support)\)\.authentication$', sides[1]) is not None
+        ctx.check('handle_connection|%s|compares-authentication' % site_desc(b, s), ok, 'token comparison is %s' % [v[:40] + ' ... ' + v[-60:] for v in vals], s.where(),
+                  sample=[v[:30] + ' ... ' + v[-50:] for v in vals])
     n, region = region_after(b, NO_TOKEN)
     ctx.check('handle_connection|no-token-edges', n == 2, 'no-token edges: %d' % n, sample=n)
     bad = [w for s, w in pool_sites if s.bb in region and not b.must_pass(s.bb, TOKEN)]
